@@ -487,6 +487,19 @@ def gen_iter(tier, rng, backends=BACKENDS_X86, with_count=True):
             cpu = (" cpu=" + be0.split(":")[1]) if ":" in be0 else ""
             for ops in hist:
                 cases.append(f"iter be={be}{cpu} ns=61 a={(k * 5) % 64} h={hexs(h)} ops={ops or 'S'}")
+    # a LONE match anywhere in a haystack of several unrolled blocks, approached from the back first: whatever a reverse
+    # search skips (a vector of a group, a block, a tail) is then both missed by next_back and found by a later next
+    # (seeded change C06-k: an 8-vector skip loop that never looks at the top vector of a group)
+    for (L, a0) in (((300, 0), (300, 9), (560, 0), (560, 37)) if quick else ((300, 0), (300, 9), (333, 23), (560, 0), (560, 37), (1100, 5))):
+        for be0 in backends:
+            be = be0.split(":")[0]
+            cpu = (" cpu=" + be0.split(":")[1]) if ":" in be0 else ""
+            for pos in range(0, L, 8 if quick else 3):
+                pos2 = min(L - 1, pos + (k % 7))
+                h = bytearray([0x78]) * L
+                h[pos2] = 0x61
+                k += 1
+                cases.append(f"iter be={be}{cpu} ns=61 a={a0} h={hexs(bytes(h))} ops={'BN' if k % 2 else 'BBNS'}")
     # long haystacks: ends meeting inside one vector, sparse and dense matches, S and C interleaved
     nl = 250 if quick else 3000
     for j in range(nl):
